@@ -559,9 +559,10 @@ def parse_ascii_data(decl, text):
                     raise ValueError("expected index %r, got line %r" % (want, lines[i]))
                 out.append((id_, ix, lines[i][len(want):]))
                 i += 1
-        if lines[i] != "":
-            raise ValueError("expected blank line after %s, got %r" % (id_, lines[i]))
-        i += 1
+        if shape:  # index lines end with a newline, the enclosing structure adds one more; a scalar has none of its own
+            if lines[i] != "":
+                raise ValueError("expected blank line after %s, got %r" % (id_, lines[i]))
+            i += 1
 
     for e in decl:
         if e[0] == "b":
